@@ -296,6 +296,10 @@ def check(ctx):
     with ctx.shared({"C03.R2": ("C08.R8", "the serial number advances only together with the data: after a response that was rolled back the next query "
                                 "asks for the same data again (otherwise the client stays ESTABLISHED on stale records)")}):
         C03.r2_r3_r4(ctx, retsets)
+    from specs import C13
+    with ctx.shared({"C13.R1": ("C08.R9", "every write of the negotiated version strictly lowers it: this is what bounds the number of FAST_RECONNECT "
+                                "rounds, which are exempt from the must-sleep rule (R3)")}):
+        C13.r1(ctx, retsets)
     ctx.not_decided("the protocol-time bound itself and equality of the records with the cache's data set")
     ctx.not_decided("termination of user-supplied transports")
     ctx.assume("sleep(retry_interval) and blocking receives let time advance; retry_interval >= 1 (C17.R4)")
